@@ -90,20 +90,22 @@ Print Assumptions C08_admin_sequences_never_fail.
      F06 the same chanmap calls end in "assignment to entry in nil map";
    - a flood into a reader with a one-slot queue that never drains evicts exactly that reader; under
      the hub behaviour before F5 the same events leave the hub stuck *)
+Definition members_are (o : outcome) (ins outs : list N) : bool :=
+  match o with
+  | HOk h => forallb (fun n => is_member n h) ins && forallb (fun n => negb (is_member n h)) outs
+  | _ => false
+  end.
+
 Example C08_witness :
   let api := [ASession 1 7 3; AConnect 1 11 2; ADeny 7; AAllow 7; ASession 2 7 3; AConnect 2 12 2; ASend 12 5]%N in
   aconn_fresh [] api /\
   lower_all false lite_init api =
     [WsAdd 7 11; Register 11 3 2; DenyBid 7; Unregister 11; WsAdd 7 12; Register 12 3 2; Broadcast 12 5]%N /\
-  (exists h, run hub_init (lower_all false lite_init api) = HOk h /\ is_member 12%N h = true /\ is_member 11%N h = false) /\
+  members_are (run hub_init (lower_all false lite_init api)) [12%N] [11%N] = true /\
   snd (crun_old cm_init [Add 7 11 11; DelCloseParent 7; DelChild 11; Add 7 12 12]%N) = [ROk; ROk; ROk; RPanicNilMap] /\
   snd (crun cm_init [Add 7 11 11; DelCloseParent 7; DelChild 11; Add 7 12 12]%N) = [ROk; ROk; ROk; ROk] /\
-  let flood := [Register 1 9 1; Register 2 9 1; Register 3 9 4; Broadcast 3 100; Broadcast 3 101; Drain 2 1; Broadcast 3 102]%N in
+  let flood := [Register 1 9 1; Register 2 9 1; Register 3 9 4; Broadcast 3 100; Drain 2 1; Broadcast 3 101; Drain 2 1; Broadcast 3 102]%N in
   evs_fresh [] [] flood /\
-  (exists h, run hub_init flood = HOk h /\ is_member 1%N h = false /\ is_member 2%N h = true /\ is_member 3%N h = true) /\
+  members_are (run hub_init flood) [2; 3]%N [1%N] = true /\
   run_gen false hub_init flood = HStuck.
-Proof.
-  vm_compute. repeat split; try (intros [X|X]; try discriminate X; try exact X); try tauto.
-  - eexists. repeat split.
-  - eexists. repeat split.
-Qed.
+Proof. vm_compute. repeat split; intuition discriminate. Qed.
